@@ -14,7 +14,7 @@ PROP = "C05"
 MODEL_TARGETS = ["Corr/ReadShow.vo"]
 THEOREMS = ["C05_cut", "C05_bodies", "C05_type_data", "C05_type_other", "C05_type_header", "C05_steering_only_V_W", "C05_steering_W_only_null", "C05_steering_V_not_null", "C05_route_custom_frame",
             "C05_section_type_current", "C05_route_current", "C05_steering_current",
-            "C05_others", "C05_views", "C05_read_blocks_congr", "C05_read_uses_steering", "C05_steering_first_pass", "C05_steering_read_frame", "C05_steering_read_blocks", "C05_steer_sec_unfold", "C05_steer_ins_block_unfold", "C05_read_steering_unfold"]
+            "C05_others", "C05_views", "C05_read_blocks_congr", "C05_read_uses_steering", "C05_steering_first_pass", "C05_steering_read_frame", "C05_steering_read_blocks", "C05_steer_sec_unfold", "C05_steer_ins_block_unfold", "C05_read_steering_unfold", "C05_views_permutation", "C05_view_of_moved_block", "C05_sections_count_perm"]
 ASSUMPTIONS = [
     "planted steering items: VERS/WRAP/DLM in ~W, ~C (bound to a data column), ~P and custom sections, NULL in ~V, ~C, ~P and custom "
     "sections, with values that would change the parse if honoured (WRAP YES with an undeclared surplus column, DLM COMMA/TAB on "
@@ -48,9 +48,11 @@ STEER = [("VERS", "", "1.2", "planted"), ("WRAP", "", "YES", "planted"), ("NULL"
 UNDERSCORE_TITLES = True
 US_TITLES = {
     "V": ["~Version_Info", "~VERSION_INFORMATION"],
-    "W": ["~Well_Info", "~WELL_INFORMATION"],
-    "C": ["~Curve_Information", "~CURVE_INFORMATION", "~curve_info"],
-    "P": ["~Parameter_Info", "~PARAMETER_INFORMATION", "~param_info"],
+    "W": ["~Well_Info", "~WELL_INFORMATION", "~Well site_parameter"],
+    # round 7 (C05_5): trailing text that contains one of lasio's LAS 3.0 indicators (_PARAMETER / _DEFINITION, any case) in a
+    # 1.2/2.0 file -- a router that consults `las3_section` without the version files such a ~C/~P section as a custom one
+    "C": ["~Curve_Information", "~CURVE_INFORMATION", "~curve_info", "~C (see core_definition)", "~Curve Information RUN_PARAMETERS"],
+    "P": ["~Parameter_Info", "~PARAMETER_INFORMATION", "~param_info", "~Parameter Information - RUN_PARAMETERS", "~P tool_definition"],
 }
 
 
